@@ -4,12 +4,14 @@
 package main
 
 import (
+	"bytes"
+	"flag"
 	"fmt"
 	"os"
-	"path/filepath"
+	osexec "os/exec"
 	"strconv"
 	"strings"
-	"syscall"
+	"sync"
 
 	"github.com/Ptt-official-app/go-pttbbs/bbs"
 	"github.com/Ptt-official-app/go-pttbbs/ptttype"
@@ -49,9 +51,346 @@ func exec(line string) (out, label string) {
 	return "bad-op", "bad-op"
 }
 
+// ---- Filename_t.Eq ---------------------------------------------------------------------------------------
+
+func cstrOf(b []byte) []byte {
+	if i := bytes.IndexByte(b, 0); i >= 0 {
+		return b[:i]
+	}
+	return b
+}
+
+// doEq: `eq <name> <name>`. P̂ (the specification of the comparison behind every lookup by id): two names are
+// the same entry exactly when creation time and suffix — the C strings from byte 2 on — are the same.
+func doEq(line string) {
+	ws := strings.Fields(line)
+	a, b := fn28(hx.UnHex(ws[1])), fn28(hx.UnHex(ws[2]))
+	a0, b0 := *a, *b
+	out := hx.CallSync(func() string {
+		if a.Eq(b) {
+			return "1"
+		}
+		return "0"
+	})
+	want := bytes.Equal(cstrOf(a0[2:]), cstrOf(b0[2:]))
+	label := "eq:differ"
+	if want {
+		label = "eq:same"
+	}
+	i := run.Op(line, out, label, true)
+	switch {
+	case out == "PANIC":
+		run.Fail(i, "crash:eq", "Eq panics: "+hx.LastPanic)
+	case out == "1" && !want:
+		run.Fail(i, "designate:eq", fmt.Sprintf("Eq holds between %q and %q, which differ in creation time or suffix", cstrOf(a0[:]), cstrOf(b0[:])))
+	case out == "0" && want:
+		run.Fail(i, "designate:eq", fmt.Sprintf("Eq does not hold between %q and %q, which have the same creation time and suffix", cstrOf(a0[:]), cstrOf(b0[:])))
+	}
+	if *a != a0 || *b != b0 {
+		run.Fail(i, "alias:eq:input", "Eq changed one of the names it compares")
+	}
+}
+
+// ---- result aliasing ----------------------------------------------------------------------------------------
+
+// doHold: `hold <op> x1 … xn` calls <op> on x1 … xn, KEEPS what each call returned (the pointer, not a copy) and
+// renders all of them only after the last call. P̂: what is read from a kept result then is what a call followed
+// by an immediate copy gives (the functions are values: the same call answers the same whatever came before or
+// after), and no call changes the input it was given.
+func doHold(line string) {
+	ws := strings.Fields(line)
+	if len(ws) < 3 {
+		run.Op(line, "bad-op", "bad-op", false)
+		return
+	}
+	op, xs := ws[1], ws[2:]
+	type kept struct {
+		render func() string
+		fresh  string
+		input  func() bool // still as given?
+	}
+	var ks []kept
+	bad := false
+	out := hx.CallSync(func() string {
+		for _, x := range xs {
+			switch op {
+			case "aidu2aidc":
+				a, err := strconv.ParseUint(x, 10, 64)
+				if err != nil {
+					bad = true
+					return ""
+				}
+				c := ptttype.Aidu(a).ToAidc()
+				ks = append(ks, kept{func() string { return hx.Hex(c[:]) }, hx.Hex(c[:]), func() bool { return true }})
+			case "aidu2fn":
+				a, err := strconv.ParseUint(x, 10, 64)
+				if err != nil {
+					bad = true
+					return ""
+				}
+				f := ptttype.Aidu(a).ToFN()
+				ks = append(ks, kept{func() string { return hx.Hex(f[:]) }, hx.Hex(f[:]), func() bool { return true }})
+			case "toraw":
+				b, ok := unhexOK(x)
+				if !ok {
+					bad = true
+					return ""
+				}
+				id := bbs.ArticleID(b)
+				f := id.ToRaw()
+				g := id.ToFilename()
+				ks = append(ks, kept{func() string {
+					if *f != *g {
+						return hx.Hex(f[:]) + "!=" + hx.Hex(g[:])
+					}
+					return hx.Hex(f[:])
+				}, hx.Hex(f[:]), func() bool { return string(id) == string(b) }})
+			case "toaid":
+				b, ok := unhexOK(x)
+				if !ok {
+					bad = true
+					return ""
+				}
+				f := fn28(b)
+				f0 := *f
+				id := bbs.ToArticleID(f)
+				ks = append(ks, kept{func() string { return hx.Hex([]byte(id)) }, hx.Hex([]byte(id)), func() bool { return *f == f0 }})
+			case "fn2aidu":
+				b, ok := unhexOK(x)
+				if !ok {
+					bad = true
+					return ""
+				}
+				f := fn28(b)
+				f0 := *f
+				v := f.ToAidu()
+				ks = append(ks, kept{func() string { return strconv.FormatUint(uint64(v), 10) }, strconv.FormatUint(uint64(v), 10), func() bool { return *f == f0 }})
+			case "aidc2aidu":
+				b, ok := unhexOK(x)
+				if !ok {
+					bad = true
+					return ""
+				}
+				c := &ptttype.Aidc{}
+				copy(c[:], b)
+				c0 := *c
+				v := c.ToAidu()
+				ks = append(ks, kept{func() string { return strconv.FormatUint(uint64(v), 10) }, strconv.FormatUint(uint64(v), 10), func() bool { return *c == c0 }})
+			default:
+				bad = true
+				return ""
+			}
+		}
+		rs := make([]string, len(ks))
+		for i, k := range ks {
+			rs[i] = k.render()
+		}
+		return strings.Join(rs, " ")
+	})
+	if bad {
+		run.Op(line, "bad-op", "bad-op", false)
+		return
+	}
+	i := run.Op(line, out, "hold:"+op, true)
+	if out == "PANIC" {
+		run.Fail(i, "crash:"+op, "PANIC while holding results: "+hx.LastPanic)
+		return
+	}
+	for j, k := range ks {
+		if got := k.render(); got != k.fresh {
+			run.Fail(i, "alias:"+op, fmt.Sprintf("the result of %s %s read %s right after the call and %s after %d later call(s): results share storage", op, xs[j], k.fresh, got, len(ks)-1-j))
+			break
+		}
+	}
+	for j, k := range ks {
+		if !k.input() {
+			run.Fail(i, "alias:"+op+":input", fmt.Sprintf("%s changed its argument %s", op, xs[j]))
+			break
+		}
+	}
+}
+
+func unhexOK(s string) (b []byte, ok bool) {
+	if s == "-" {
+		return nil, true
+	}
+	if len(s)%2 != 0 {
+		return nil, false
+	}
+	defer func() {
+		if recover() != nil {
+			b, ok = nil, false
+		}
+	}()
+	return hx.UnHex(s), true
+}
+
+// ---- concurrent round trips -------------------------------------------------------------------------------------
+
+func natTok(s string) (int, bool) {
+	if len(s) == 0 || len(s) > 9 {
+		return 0, false
+	}
+	for i := 0; i < len(s); i++ {
+		if s[i] < '0' || s[i] > '9' {
+			return 0, false
+		}
+	}
+	v, _ := strconv.Atoi(s)
+	return v, true
+}
+
+// stressChild: g goroutines (= concurrent api requests), each converting its own names to ids and back n times and
+// comparing with the answers computed single-threaded before the goroutines started. Prints `fails <k> <first>`.
+// Runs in a process of its own so that a -race build's detector reports can be collected from its stderr.
+func stressChild(g, n int, seed uint64) {
+	const tMin, tMax = 1000000000, 1<<31 - 1
+	type item struct {
+		f    ptttype.Filename_t
+		id   bbs.ArticleID
+		aidu ptttype.Aidu
+		aidc ptttype.Aidc
+	}
+	per := 64
+	items := make([][]item, g)
+	r := hx.NewRand(seed)
+	for a := range items {
+		items[a] = make([]item, per)
+		for b := range items[a] {
+			it := &items[a][b]
+			copy(it.f[:], name("MG"[r.Intn(2)], tMin+r.U64()%(tMax-tMin+1), r.Intn(4096)))
+			it.id = bbs.ToArticleID(&it.f)
+			it.aidu = it.f.ToAidu()
+			it.aidc = *it.aidu.ToAidc()
+		}
+	}
+	var mu sync.Mutex
+	fails, first := 0, ""
+	report := func(s string) {
+		mu.Lock()
+		if fails == 0 {
+			first = s
+		}
+		fails++
+		mu.Unlock()
+	}
+	var wg sync.WaitGroup
+	for a := 0; a < g; a++ {
+		wg.Add(1)
+		go func(mine []item) {
+			defer wg.Done()
+			defer func() {
+				if e := recover(); e != nil {
+					report(fmt.Sprintf("panic:%v", e))
+				}
+			}()
+			for k := 0; k < n; k++ {
+				it := &mine[k%len(mine)]
+				f := it.f
+				id := bbs.ToArticleID(&f)
+				back := id.ToRaw()
+				c := it.aidu.ToAidc()
+				cc := *c
+				switch {
+				case id != it.id:
+					report(fmt.Sprintf("name %s has id %q when converted alone and %q beside other requests", cstrOf(f[:]), it.id, id))
+				case *back != it.f:
+					report(fmt.Sprintf("name %s -> id %q -> %s beside other requests", cstrOf(f[:]), id, cstrOf(back[:])))
+				case cc != it.aidc:
+					report(fmt.Sprintf("number %d has text %q when converted alone and %q beside other requests", it.aidu, it.aidc[:], cc[:]))
+				case cc.ToAidu() != it.aidu:
+					report(fmt.Sprintf("text %q decodes to %d beside other requests, to %d alone", cc[:], cc.ToAidu(), it.aidu))
+				}
+			}
+		}(items[a])
+	}
+	wg.Wait()
+	fmt.Printf("fails %d %s\n", fails, strings.ReplaceAll(first, "\n", " "))
+}
+
+func doConc(line string) {
+	ws := strings.Fields(line)
+	g, ok1 := natTok(ws[1])
+	n, ok2 := natTok(ws[2])
+	sd, ok3 := natTok(ws[3])
+	if !ok1 || !ok2 || !ok3 || g < 1 || g > 256 {
+		run.Op(line, "bad-op", "bad-op", false)
+		return
+	}
+	self, _ := os.Executable()
+	cmd := osexec.Command(self, "stresschild", ws[1], ws[2], ws[3])
+	cmd.Env = append(os.Environ(), "GORACE=halt_on_error=0 exitcode=0")
+	var so, se bytes.Buffer
+	cmd.Stdout, cmd.Stderr = &so, &se
+	err := cmd.Run()
+	_ = sd
+	fails, first := -1, ""
+	if fs := strings.SplitN(strings.TrimSpace(so.String()), " ", 3); len(fs) >= 2 && fs[0] == "fails" {
+		fails, _ = strconv.Atoi(fs[1])
+		if len(fs) == 3 {
+			first = fs[2]
+		}
+	}
+	races := strings.Count(se.String(), "WARNING: DATA RACE")
+	total, _ := run.Extra["race_detector_reports"].(int)
+	run.Extra["race_detector_reports"] = total + races
+	out := "ok"
+	switch {
+	case err != nil || fails < 0:
+		out = "child-failed"
+	case fails > 0:
+		out = fmt.Sprintf("bad %d", fails)
+	case races > 0:
+		out = fmt.Sprintf("race %d", races)
+	}
+	i := run.Op(line, out, "conc:"+strings.Fields(out)[0], true)
+	switch {
+	case err != nil || fails < 0:
+		run.Fail(i, "crash:conc", fmt.Sprintf("the stress process did not complete: %v %s", err, tail(se.String(), 300)))
+	case fails > 0:
+		run.Fail(i, "concurrent:roundtrip", fmt.Sprintf("%d of %d conversions done by %d concurrent requests differ from the same conversions done alone; first: %s", fails, g*n, g, first))
+	case races > 0:
+		run.Fail(i, "concurrent:datarace", fmt.Sprintf("the race detector reports %d data race(s) in the conversions of %d concurrent requests: %s", races, g, tail(firstRace(se.String()), 600)))
+	}
+}
+
+func tail(s string, n int) string {
+	s = strings.ReplaceAll(s, "\n", " | ")
+	if len(s) > n {
+		return s[:n]
+	}
+	return s
+}
+
+func firstRace(s string) string {
+	if i := strings.Index(s, "WARNING: DATA RACE"); i >= 0 {
+		return s[i:]
+	}
+	return s
+}
+
+var raceOnly = flag.Bool("raceonly", false, "only the concurrent round trips (race-detector pass)")
+
 var run *hx.Run
 
 func do(line string, nontrivial bool) (string, int) {
+	if ws := strings.Fields(line); len(ws) > 0 {
+		switch {
+		case ws[0] == "eq" && len(ws) == 3:
+			if _, ok1 := unhexOK(ws[1]); ok1 {
+				if _, ok2 := unhexOK(ws[2]); ok2 {
+					doEq(line)
+					return "", -1
+				}
+			}
+		case ws[0] == "hold":
+			doHold(line)
+			return "", -1
+		case ws[0] == "conc" && len(ws) == 4:
+			doConc(line)
+			return "", -1
+		}
+	}
 	out, label := exec(line)
 	if out == "PANIC" {
 		label += ":panic"
@@ -84,19 +423,35 @@ func roundTrip(ty byte, t uint64, p int) {
 }
 
 func main() {
+	if len(os.Args) == 5 && os.Args[1] == "stresschild" {
+		g, _ := strconv.Atoi(os.Args[2])
+		n, _ := strconv.Atoi(os.Args[3])
+		sd, _ := strconv.ParseUint(os.Args[4], 10, 64)
+		stressChild(g, n, sd)
+		return
+	}
 	run = hx.Start("C13")
 	defer run.Finish()
 	r := run.R
 	run.Rule = "names: all 4096 suffixes x {M,G} at boundary times + random names in the domain; per digit position all 64 digit values; malformed stream: every byte value at every id position, lengths 0..12, out-of-domain times (recorded, not judged). distinct = distinct op lines; nontrivial = reaches the codec with a well-formed input or a distinct malformed class"
 
 	if run.Replay != "" {
-		ops := hx.ReplayOps(run.Replay)
-		handOverDesignation(ops)
-		for _, l := range ops {
+		for _, l := range hx.ReplayOps(run.Replay) {
 			do(l, true)
 		}
 		return
 	}
+	if *raceOnly {
+		run.Rule = "concurrent round trips under the Go race detector (-race build): goroutines x names, each converting its own names to ids and back and comparing with the single-threaded answers; judged by the comparison and by the detector's reports"
+		for k := 0; k < 6; k++ {
+			do(fmt.Sprintf("conc %d %d %d", []int{2, 4, 8, 16, 32, 8}[k], 60000, r.Intn(1000000)), true)
+		}
+		return
+	}
+	run.Rule += " | Filename_t.Eq on pairs of names that are equal / differ in exactly one field (type letter, delete mark, each time digit, each suffix digit, +-1 s) and random pairs. " +
+		"result aliasing: `hold <op> x1..xn` keeps the values the codec functions RETURN (pointers included) across later calls and re-reads them; inputs must stay as given. " +
+		"concurrent round trips: 2..16 goroutines x 64 names each, compared with the single-threaded answers (a process of its own; under -race in the thorough-only pass `race`)"
+	streamsR4(r)
 
 	const tMin, tMax = 1000000000, 1<<31 - 1
 	// (i)/(ii): every suffix, both types, at the boundary times.
@@ -240,22 +595,88 @@ func main() {
 	}
 }
 
-// handOverDesignation: a replay that is a designation history (pass `designate`, go/cmd/c13d) belongs to the
-// other harness of this property. `./check --replay` routes a replay recorded from a corpus run to the first pass,
-// i.e. to this binary; it then continues as the sibling binary c13d with the same arguments.
-func handOverDesignation(ops []string) {
-	if len(ops) == 0 || !strings.HasPrefix(ops[0], "reset ") {
-		return
+// streamsR4: the comparison behind lookups by id, result aliasing, concurrent use.
+func streamsR4(r *hx.Rand) {
+	const tMin, tMax = 1000000000, 1<<31 - 1
+	hexName := func(n []byte) string { f := fn28(n); return hx.Hex(f[:]) }
+	nBase := 40
+	if run.Thorough() {
+		nBase = 1500
 	}
-	self, err := os.Executable()
-	if err != nil {
-		return
+	for k := 0; k < nBase; k++ {
+		t, p := tMin+r.U64()%(tMax-tMin+1), r.Intn(4096)
+		switch k { // boundary names first
+		case 0:
+			t, p = 1607203395, 0x00D
+		case 1:
+			t, p = tMin, 0
+		case 2:
+			t, p = tMax, 0xfff
+		}
+		base := name('M', t, p)
+		vs := [][]byte{base, name('G', t, p)}
+		d := append([]byte{}, base...)
+		d[0], d[1] = '.', 'd'
+		vs = append(vs, d)
+		if t+1 <= tMax {
+			vs = append(vs, name('M', t+1, p))
+		}
+		if t-1 >= tMin {
+			vs = append(vs, name('M', t-1, p))
+		}
+		for pos := 2; pos < 12; pos++ { // one time digit
+			v := append([]byte{}, base...)
+			v[pos] = '0' + (v[pos]-'0'+1+byte(r.Intn(9)))%10
+			vs = append(vs, v)
+		}
+		for pos := 15; pos < 18; pos++ { // one suffix digit
+			vs = append(vs, name('M', t, p^(1<<(4*uint(17-pos)))))
+		}
+		vs = append(vs, base[:17], append(append([]byte{}, base...), 'x'))
+		for _, v := range vs {
+			do("eq "+hexName(base)+" "+hexName(v), true)
+			do("eq "+hexName(v)+" "+hexName(base), true)
+		}
+		do("eq "+hexName(base)+" "+hexName(name("MG"[r.Intn(2)], tMin+r.U64()%(tMax-tMin+1), r.Intn(4096))), true)
 	}
-	sib := filepath.Join(filepath.Dir(self), "c13d")
-	if _, err := os.Stat(sib); err != nil {
-		return
+	// aliasing: 2..6 results kept across the later calls
+	nHold := 60
+	if run.Thorough() {
+		nHold = 3000
 	}
-	_ = syscall.Exec(sib, append([]string{sib}, os.Args[1:]...), os.Environ())
+	rn := func() []byte { return name("MG"[r.Intn(2)], tMin+r.U64()%(tMax-tMin+1), r.Intn(4096)) }
+	for k := 0; k < nHold; k++ {
+		n := 2 + r.Intn(5)
+		if k < 6 {
+			n = 2
+		}
+		var nums, names, ids, aidcs []string
+		for j := 0; j < n; j++ {
+			f := fn28(rn())
+			names = append(names, hx.Hex(f[:]))
+			nums = append(nums, strconv.FormatUint(uint64(f.ToAidu()), 10))
+			c := f.ToAidu().ToAidc()
+			ids = append(ids, hx.Hex(c[:]))
+			aidcs = append(aidcs, hx.Hex(c[:]))
+		}
+		for _, o := range []struct {
+			op string
+			xs []string
+		}{{"aidu2aidc", nums}, {"aidu2fn", nums}, {"toraw", ids}, {"toaid", names}, {"fn2aidu", names}, {"aidc2aidu", aidcs}} {
+			do("hold "+o.op+" "+strings.Join(o.xs, " "), true)
+		}
+	}
+	for _, l := range []string{"hold", "hold toaid", "hold nosuch 00", "hold toaid zz", "hold aidu2fn x", "eq 00", "eq zz 00", "conc 1 2", "conc 0 1 1", "conc x 1 1"} {
+		do(l, false)
+	}
+	// concurrent requests
+	iters := 150000
+	if run.Thorough() {
+		iters = 400000
+	}
+	for _, g := range []int{2, 4, 8, 16} {
+		do(fmt.Sprintf("conc %d %d %d", g, iters, r.Intn(1000000)), true)
+	}
 }
 
 func base2(l int, r *hx.Rand) []byte {
